@@ -204,6 +204,7 @@ func muxScenario(id string, seed uint64) runner.Result {
 
 	nconn := 2 + r.Intn(8)
 	stopped := false
+	var reRouteDead []string
 	settle := func() {
 		census.Quiesce(rig.Watchdog)
 		if !stopped {
@@ -244,11 +245,13 @@ func muxScenario(id string, seed uint64) runner.Result {
 					steps = append(steps, "Route-again("+p+")")
 					startAcceptor(nl)
 					census.Quiesce(rig.Watchdog)
-					// Route may hand back the old, closed listener (its Accept fails at once): then nothing is promised.
-					// If it handed back a live listener, connections with that prefix arriving from now on belong to it.
-					if !acceptOps[len(acceptOps)-1].Returned() {
-						liveRoute[p] = nl.name
+					// registering a prefix again after its listener was closed is a legal order of calls: the
+					// listener handed back must be a live one, and connections with that prefix arriving from
+					// now on belong to it
+					if acceptOps[len(acceptOps)-1].Returned() && !stopped {
+						reRouteDead = append(reRouteDead, nl.name)
 					}
+					liveRoute[p] = nl.name
 				}
 			}
 		}
@@ -337,6 +340,9 @@ func muxScenario(id string, seed uint64) runner.Result {
 	}
 	hist := strings.Join(steps, " ")
 	var fails []string
+	for _, name := range reRouteDead {
+		fails = append(fails, fmt.Sprintf("Route() for a prefix whose previous listener the application had closed handed back %s, whose Accept fails at once although the multiplexer is running (a dead listener: connections with that prefix go elsewhere)", name))
+	}
 	if !runOp.Returned() {
 		fails = append(fails, "Run has not returned at quiescence after the multiplexer was stopped\n"+census.Dump(census.InDRPC(snap)))
 	}
